@@ -231,9 +231,9 @@ class LeanSide:
         out = r.stdout + r.stderr
         # parse: "'name' depends on axioms: [a, b]" / "'name' does not depend on any axioms"
         ax = {}
-        for m in re.finditer(r"'([^']+)' depends on axioms: \[([^\]]*)\]", out, re.S):
+        for m in re.finditer(r"'(\S+?)' depends on axioms: \[([^\]]*)\]", out, re.S):
             ax[m.group(1)] = [a.strip() for a in m.group(2).replace("\n", " ").split(",") if a.strip()]
-        for m in re.finditer(r"'([^']+)' does not depend on any axioms", out):
+        for m in re.finditer(r"'(\S+?)' does not depend on any axioms", out):
             ax[m.group(1)] = []
         rep["axioms"] = ax
         failed = []
